@@ -8,11 +8,15 @@
 //
 //	id  class  items  count  extent  dump  searches
 //
-// class    = layout, "big:" layout for the large spec-only populations, with the suffix "@k" when the
+// class    = layout, "big:" layout for the large spec-only populations, "mm:" layout for the
 //
-//	case ran rescaled by 2^k (items, queries; Extent and the dump are scaled back by the harness, so
-//	every field of the line is in lattice integers)
+//	mixed-magnitude populations, with the suffix "@k" when the case ran rescaled by 2^k (items,
+//	queries; Extent and the dump are scaled back by the harness, so every field of the line is
+//	in units of 2^k)
 //
+// ordinates are written "c" or "cps" (= c * 2^s units, s > 0; the mixed-magnitude populations), and
+// "inf" / "-inf" for an infinite side of a query box (the driver replaces it by an integer beyond
+// every finite ordinate of the case, which is order-equivalent for a query box)
 // items    = "minx,miny,maxx,maxy,id;..." or "-"
 // extent   = "minx,miny,maxx,maxy" or "none"
 // dump     = VerifDump() of the real tree, or "-" when the hook is not compiled in
@@ -43,7 +47,16 @@ import (
 	"verifharness/lib"
 )
 
-type ibox struct{ minx, miny, maxx, maxy int }
+// ibox: the box c * 2^(sh+curScale) for each of its four lattice ordinates c; an ordinate equal
+// to +-infC stands for +-Inf (query boxes only).
+type ibox struct {
+	minx, miny, maxx, maxy int
+	sh                     int
+}
+
+const infC = 1 << 40
+
+func bx(minx, miny, maxx, maxy int) ibox { return ibox{minx: minx, miny: miny, maxx: maxx, maxy: maxy} }
 
 type item struct {
 	b  ibox
@@ -51,24 +64,71 @@ type item struct {
 }
 
 // curScale is the binary exponent of the case being run: every ordinate handed to the
-// implementation (items and queries alike) is the lattice integer times 2^curScale, an exact
-// rescaling as long as the values stay normal and finite (lattice |c| < 2^22, -1000 <= k <= 990).
+// implementation (items and queries alike) is the lattice integer times 2^(curScale+sh), an exact
+// rescaling as long as the values stay finite and multiples of 2^-1074 (lattice |c| < 2^22,
+// -1074 <= curScale+sh <= 1001).
 var curScale int
 
-func sc(c int) float64 { return math.Ldexp(float64(c), curScale) }
+// negZero: when set, a lattice ordinate 0 is handed over as -0.0 (1: always, 2: items only,
+// 3: every other call).
+var negZero, negZeroCalls int
 
-func (b ibox) rt() rtree.Box {
-	return rtree.Box{MinX: sc(b.minx), MinY: sc(b.miny), MaxX: sc(b.maxx), MaxY: sc(b.maxy)}
+func scf(c, sh int, isQuery bool) float64 {
+	switch {
+	case c >= infC:
+		return math.Inf(1)
+	case c <= -infC:
+		return math.Inf(-1)
+	case c == 0:
+		negZeroCalls++
+		if negZero == 1 || (negZero == 2 && !isQuery) || (negZero == 3 && negZeroCalls%2 == 0) {
+			return math.Copysign(0, -1)
+		}
+		return 0
+	}
+	return math.Ldexp(float64(c), curScale+sh)
 }
 
-// unscale divides the power of two out again (exact).
-func unscale(f float64) float64 { return math.Ldexp(f, -curScale) }
+func (b ibox) rt() rtree.Box {
+	return rtree.Box{MinX: scf(b.minx, b.sh, false), MinY: scf(b.miny, b.sh, false), MaxX: scf(b.maxx, b.sh, false), MaxY: scf(b.maxy, b.sh, false)}
+}
 
-// unscaleDump rewrites the ordinates of a VerifDump string back to the lattice.
-func unscaleDump(d string) string {
-	if curScale == 0 {
-		return d
+// rtq: the same for a query box (only matters for the negative-zero modes)
+func (b ibox) rtq() rtree.Box {
+	return rtree.Box{MinX: scf(b.minx, b.sh, true), MinY: scf(b.miny, b.sh, true), MaxX: scf(b.maxx, b.sh, true), MaxY: scf(b.maxy, b.sh, true)}
+}
+
+// fnumP writes a float64 of the implementation (an Extent side, a box of the real tree) in
+// lattice units: exactly, as "c" or "cps"; "x..." when it is not an integer number of units.
+func fnumP(f float64) string {
+	if f == 0 {
+		return "0"
 	}
+	if math.IsInf(f, 0) || math.IsNaN(f) {
+		return "x" + strconv.FormatFloat(f, 'g', -1, 64)
+	}
+	fr, e := math.Frexp(f) // f = fr * 2^e, 0.5 <= |fr| < 1
+	m := int64(math.Ldexp(fr, 53))
+	e -= 53 + curScale // f = m * 2^e lattice units
+	for m%2 == 0 {
+		m /= 2
+		e++
+	}
+	if e < 0 {
+		return "x" + strconv.FormatFloat(f, 'g', -1, 64)
+	}
+	a := m
+	if a < 0 {
+		a = -a
+	}
+	if e == 0 || (e < 62 && a < (int64(1)<<(62-uint(e)))) {
+		return strconv.FormatInt(m<<uint(e), 10)
+	}
+	return strconv.FormatInt(m, 10) + "p" + strconv.Itoa(e)
+}
+
+// unscaleDump rewrites the ordinates of a VerifDump string in lattice units.
+func unscaleDump(d string) string {
 	t := strings.Fields(d)
 	for i := 0; i < len(t); i++ {
 		if t[i] == "L" || t[i] == "B" {
@@ -77,7 +137,7 @@ func unscaleDump(d string) string {
 				if err != nil {
 					return d
 				}
-				t[i+j] = strconv.FormatFloat(unscale(f), 'g', -1, 64)
+				t[i+j] = fnumP(f)
 			}
 			i += 4
 			if t[i-4] == "L" {
@@ -88,28 +148,38 @@ func unscaleDump(d string) string {
 	return strings.Join(t, " ")
 }
 
-// pickScale: exponent classes of the rescaled populations. Squared distances of the
-// implementation are exact for -537 <= k <= 489 (lattice gaps < 2^22: dx*dx+dy*dy is a multiple of
-// 2^-1074 and below 2^1024); beyond that range they underflow/overflow.
+// pickScale: exponent classes of the rescaled populations. Every ordinate, every comparison, sum
+// and difference of ordinates stays exact for -1074 <= k <= 1000 (lattice |c| < 2^23); squared
+// distances of the implementation are exact for about -537 <= k <= 488 (lattice gaps < 2^23:
+// dx*dx+dy*dy is a multiple of 2^-1074 and below 2^1024; the driver works the bound out per case);
+// beyond that range they underflow/overflow.
 func pickScale(r *lib.Rng) int {
 	switch r.Intn(10) {
 	case 0:
-		return []int{-537, -536, -512, -511, 488, 489, -1, 1, 52, -52, -1000, 990}[r.Intn(12)]
+		return []int{-537, -536, -512, -511, 488, 489, -1, 1, 52, -52, -1000, 990, -1074, -1073,
+			-1023, -1022, -1021, -600, -300, -100, 100, 300, 600, 900, 1000}[r.Intn(25)]
 	case 1, 2:
-		return r.Range(-1000, -538) // squares underflow
+		return r.Range(-1074, -538) // squares underflow (below -1022: subnormal ordinates)
 	case 3:
-		return r.Range(490, 990) // squares overflow
+		return r.Range(490, 1000) // squares overflow
 	}
 	return r.Range(-537, 489)
 }
 
-func (b ibox) String() string { return fmt.Sprintf("%d,%d,%d,%d", b.minx, b.miny, b.maxx, b.maxy) }
-
-func fnum(f float64) string {
-	if f != math.Trunc(f) || math.IsInf(f, 0) || math.IsNaN(f) || math.Abs(f) > 1e15 {
-		return "x" + strconv.FormatFloat(f, 'g', -1, 64)
+func ordStr(c, sh int) string {
+	switch {
+	case c >= infC:
+		return "inf"
+	case c <= -infC:
+		return "-inf"
+	case c == 0 || sh == 0:
+		return strconv.Itoa(c)
 	}
-	return strconv.FormatInt(int64(f), 10)
+	return strconv.Itoa(c) + "p" + strconv.Itoa(sh)
+}
+
+func (b ibox) String() string {
+	return ordStr(b.minx, b.sh) + "," + ordStr(b.miny, b.sh) + "," + ordStr(b.maxx, b.sh) + "," + ordStr(b.maxy, b.sh)
 }
 
 type scriptErr struct{ code int }
@@ -199,12 +269,12 @@ var layouts = []string{"uniform", "points", "hvlines", "duplicates", "concentric
 func genBox(r *lib.Rng, layout string, i, n int, R int, aux []ibox) ibox {
 	rb := func(maxw int) ibox {
 		x, y := r.Range(-R, R), r.Range(-R, R)
-		return ibox{x, y, x + r.Range(0, maxw), y + r.Range(0, maxw)}
+		return bx(x, y, x+r.Range(0, maxw), y+r.Range(0, maxw))
 	}
 	switch layout {
 	case "points":
 		x, y := r.Range(-R, R), r.Range(-R, R)
-		return ibox{x, y, x, y}
+		return bx(x, y, x, y)
 	case "hvlines":
 		b := rb(R/2 + 1)
 		if r.Bool() {
@@ -218,32 +288,32 @@ func genBox(r *lib.Rng, layout string, i, n int, R int, aux []ibox) ibox {
 	case "concentric": // identical centres: all boxes centred on aux[0]'s corner
 		c := aux[0]
 		w, h := r.Range(0, R), r.Range(0, R)
-		return ibox{c.minx - w, c.miny - h, c.minx + w, c.miny + h}
+		return bx(c.minx-w, c.miny-h, c.minx+w, c.miny+h)
 	case "clustered":
 		c := aux[r.Intn(len(aux))]
 		dx, dy := r.Range(-3, 3), r.Range(-3, 3)
-		return ibox{c.minx + dx, c.miny + dy, c.minx + dx + r.Range(0, 2), c.miny + dy + r.Range(0, 2)}
+		return bx(c.minx+dx, c.miny+dy, c.minx+dx+r.Range(0, 2), c.miny+dy+r.Range(0, 2))
 	case "collinear":
 		t := r.Range(-R, R)
 		w := r.Range(0, 2)
 		switch aux[0].minx & 3 {
 		case 0:
-			return ibox{t, 7, t + w, 7 + w}
+			return bx(t, 7, t+w, 7+w)
 		case 1:
-			return ibox{-3, t, -3 + w, t + w}
+			return bx(-3, t, -3+w, t+w)
 		case 2:
-			return ibox{t, t, t + w, t + w}
+			return bx(t, t, t+w, t+w)
 		}
-		return ibox{t, -t, t + w, -t + w}
+		return bx(t, -t, t+w, -t+w)
 	case "heavy":
 		x, y := r.Range(-R/4, R/4), r.Range(-R/4, R/4)
-		return ibox{x - r.Range(R/2, R), y - r.Range(R/2, R), x + r.Range(R/2, R), y + r.Range(R/2, R)}
+		return bx(x-r.Range(R/2, R), y-r.Range(R/2, R), x+r.Range(R/2, R), y+r.Range(R/2, R))
 	case "grid": // unit boxes in a row or a square grid (the F1 population)
 		if aux[0].minx&1 == 0 {
-			return ibox{i, 0, i + 1, 1}
+			return bx(i, 0, i+1, 1)
 		}
 		side := int(math.Ceil(math.Sqrt(float64(n)))) + 1
-		return ibox{i % side, i / side, i%side + 1, i/side + 1}
+		return bx(i%side, i/side, i%side+1, i/side+1)
 	case "mixed":
 		return genBox(r, layouts[r.Intn(len(layouts)-1)], i, n, R, aux)
 	}
@@ -258,7 +328,7 @@ func genItems(r *lib.Rng, layout string, n int) []item {
 	aux := make([]ibox, r.Range(1, 4))
 	for i := range aux {
 		x, y := r.Range(-R, R), r.Range(-R, R)
-		aux[i] = ibox{x, y, x + r.Range(0, 3), y + r.Range(0, 3)}
+		aux[i] = bx(x, y, x+r.Range(0, 3), y+r.Range(0, 3))
 	}
 	items := make([]item, n)
 	idMode := r.Intn(4)
@@ -287,7 +357,7 @@ func genItems(r *lib.Rng, layout string, n int) []item {
 
 func bound(items []item) ibox {
 	if len(items) == 0 {
-		return ibox{0, 0, 0, 0}
+		return bx(0, 0, 0, 0)
 	}
 	b := items[0].b
 	for _, it := range items[1:] {
@@ -313,46 +383,151 @@ func genQueries(r *lib.Rng, items []item, nq int, qcls map[string]int) []ibox {
 	w, h := bb.maxx-bb.minx+1, bb.maxy-bb.miny+1
 	pick := func() ibox {
 		if len(items) == 0 {
-			return ibox{0, 0, 1, 1}
+			return bx(0, 0, 1, 1)
 		}
 		return items[r.Intn(len(items))].b
 	}
 	var qs []ibox
 	add := func(cls string, q ibox) { qcls[cls]++; qs = append(qs, q) }
-	add("enclosing", ibox{bb.minx - 1, bb.miny - 1, bb.maxx + 1, bb.maxy + 1})
+	add("enclosing", bx(bb.minx-1, bb.miny-1, bb.maxx+1, bb.maxy+1))
 	for len(qs) < nq {
 		b := pick()
-		switch r.Intn(10) {
+		switch r.Intn(12) {
+		case 10: // the query of geom's point-in-ring test: a ray from -Inf to a point
+			x, y := bb.minx+r.Intn(w), bb.miny+r.Intn(h)
+			if r.Bool() {
+				x, y = b.minx, b.maxy
+			}
+			add("inf_ray", bx(-infC, y, x, y))
+		case 11:
+			x, y := bb.minx+r.Intn(w), bb.miny+r.Intn(h)
+			switch r.Intn(5) {
+			case 0:
+				add("inf_plane", bx(-infC, -infC, infC, infC))
+			case 1:
+				add("inf_half", bx(-infC, -infC, x, infC))
+			case 2:
+				add("inf_quadrant", bx(b.maxx, b.maxy, infC, infC))
+			case 3:
+				add("inf_strip", bx(-infC, y, infC, y+r.Intn(3)))
+			default:
+				add("inf_half", bx(x, -infC, infC, infC))
+			}
 		case 0:
-			add("disjoint", ibox{bb.maxx + 1 + r.Intn(5), bb.miny, bb.maxx + 10 + w, bb.maxy})
+			add("disjoint", bx(bb.maxx+1+r.Intn(5), bb.miny, bb.maxx+10+w, bb.maxy))
 		case 1:
-			add("corner_touch", ibox{b.maxx, b.maxy, b.maxx + r.Range(0, 3), b.maxy + r.Range(0, 3)})
+			add("corner_touch", bx(b.maxx, b.maxy, b.maxx+r.Range(0, 3), b.maxy+r.Range(0, 3)))
 		case 2:
-			add("corner_touch", ibox{b.minx - r.Range(0, 3), b.miny - r.Range(0, 3), b.minx, b.miny})
+			add("corner_touch", bx(b.minx-r.Range(0, 3), b.miny-r.Range(0, 3), b.minx, b.miny))
 		case 3:
-			add("edge_touch", ibox{b.maxx, b.miny - 1, b.maxx + r.Range(0, 4), b.maxy + 1})
+			add("edge_touch", bx(b.maxx, b.miny-1, b.maxx+r.Range(0, 4), b.maxy+1))
 		case 4:
-			add("edge_touch", ibox{b.minx - 1, b.miny - r.Range(0, 4), b.maxx + 1, b.miny})
+			add("edge_touch", bx(b.minx-1, b.miny-r.Range(0, 4), b.maxx+1, b.miny))
 		case 5:
-			add("near_miss", ibox{b.maxx + 1, b.miny, b.maxx + 2, b.maxy})
+			add("near_miss", bx(b.maxx+1, b.miny, b.maxx+2, b.maxy))
 		case 6:
 			x, y := bb.minx+r.Intn(w), bb.miny+r.Intn(h)
-			add("point", ibox{x, y, x, y})
+			add("point", bx(x, y, x, y))
 		case 7:
 			add("equal_item", b)
 		case 8:
 			x := bb.minx + r.Intn(w)
-			add("line", ibox{x, bb.miny - 2, x, bb.maxy + 2})
+			add("line", bx(x, bb.miny-2, x, bb.maxy+2))
 		default:
 			x, y := bb.minx+r.Intn(w), bb.miny+r.Intn(h)
-			add("random", ibox{x, y, x + r.Intn(w/2+1), y + r.Intn(h/2+1)})
+			add("random", bx(x, y, x+r.Intn(w/2+1), y+r.Intn(h/2+1)))
 		}
 	}
 	return qs
 }
 
+// overlapI: do the two boxes share a point (exact: the ordinates handed over are exact, and
+// comparisons of float64 values are exact)
 func overlapI(a, b ibox) bool {
-	return a.minx <= b.maxx && a.maxx >= b.minx && a.miny <= b.maxy && a.maxy >= b.miny
+	x, y := a.rt(), b.rt()
+	return x.MinX <= y.MaxX && x.MaxX >= y.MinX && x.MinY <= y.MaxY && x.MaxY >= y.MinY
+}
+
+// genMixed: a population of mixed magnitudes: "tiny" boxes in units of 2^curScale and "huge" boxes
+// in units of 2^(curScale+S) around the same origin. Every ordinate is exact and so is every
+// comparison the implementation makes between them; its sums and differences are rounded.
+func genMixed(r *lib.Rng, n, S int, layout string) []item {
+	items := make([]item, n)
+	for i := range items {
+		var b ibox
+		R := []int{3, 10, 50, 1000}[r.Intn(4)]
+		x, y := r.Range(-R, R), r.Range(-R, R)
+		switch r.Intn(6) {
+		case 0:
+			b = bx(x, y, x, y)
+		case 1:
+			b = bx(x, y, x+r.Range(0, R), y)
+		case 2: // contains the origin (a huge one contains the whole tiny cluster)
+			b = bx(-r.Range(0, R), -r.Range(0, R), r.Range(0, R), r.Range(0, R))
+		case 3: // a corner at the origin
+			b = bx(0, 0, r.Range(0, R), r.Range(0, R))
+			if r.Bool() {
+				b = bx(-r.Range(0, R), -r.Range(0, R), 0, 0)
+			}
+		default:
+			b = bx(x, y, x+r.Range(0, R), y+r.Range(0, R))
+		}
+		switch layout {
+		case "tiny_and_huge":
+			if r.Bool() {
+				b.sh = S
+			}
+		case "one_huge":
+			if i == 0 {
+				b.sh = S
+			}
+		case "one_tiny":
+			if i != 0 {
+				b.sh = S
+			}
+		}
+		items[i] = item{b, 3*i - n}
+	}
+	return items
+}
+
+func genMixedQueries(r *lib.Rng, items []item, S int, qcls map[string]int) []ibox {
+	var qs []ibox
+	add := func(cls string, q ibox, sh int) { qcls["mm_"+cls]++; q.sh = sh; qs = append(qs, q) }
+	add("enclosing", bx(-2001, -2001, 2001, 2001), S)
+	pick := func() ibox {
+		if len(items) == 0 {
+			return bx(0, 0, 1, 1)
+		}
+		return items[r.Intn(len(items))].b
+	}
+	for len(qs) < 5 {
+		b := pick()
+		c := r.Range(0, 60)
+		switch r.Intn(9) {
+		case 0: // anchored at the origin, huge units: takes in the non-negative part of the tiny cluster
+			add("origin_huge", bx(0, 0, c, c), S)
+		case 1:
+			add("origin_huge", bx(-c, -c, 0, 0), S)
+		case 2: // tiny units
+			x, y := r.Range(-60, 60), r.Range(-60, 60)
+			add("tiny_random", bx(x, y, x+r.Range(0, 30), y+r.Range(0, 30)), 0)
+		case 3:
+			add("corner_touch", bx(b.maxx, b.maxy, b.maxx+r.Range(0, 3), b.maxy+r.Range(0, 3)), b.sh)
+		case 4:
+			add("near_miss", bx(b.maxx+1, b.miny, b.maxx+2, b.maxy), b.sh)
+		case 5:
+			add("edge_touch", bx(b.minx-1, b.miny-r.Range(0, 4), b.maxx+1, b.miny), b.sh)
+		case 6:
+			add("inf_ray", bx(-infC, b.maxy, b.minx, b.maxy), b.sh)
+		case 7:
+			add("inf_quadrant", bx(b.maxx, b.maxy, infC, infC), b.sh)
+		default:
+			x, y := r.Range(-60, 60), r.Range(-60, 60)
+			add("huge_random", bx(x, y, x+r.Range(0, 30), y+r.Range(0, 30)), S)
+		}
+	}
+	return qs
 }
 
 func main() {
@@ -375,14 +550,28 @@ func main() {
 	// the driver judges them by the executable specification on the item list alone (linear scans;
 	// the extracted tree model is quadratic there) plus the model searches on the REAL tree
 	const nBig = 3
-	for i := 0; i < a.N+nBig; i++ {
+	// after them nMixed small populations of mixed magnitudes, class "mm:<layout>"
+	nMixed := 16
+	if a.Tier == "thorough" {
+		nMixed = 160
+	}
+	negZeros := 0
+	for i := 0; i < a.N+nBig+nMixed; i++ {
 		r := root.Fork()
 		// sizes 0..40 exhaustively (each with every layout in turn), then larger populations
 		var n int
 		layout := layouts[(i/41)%len(layouts)]
 		exhaustive := i < 41*len(layouts) || i%3 != 0
-		big := i >= a.N
-		if big {
+		big := i >= a.N && i < a.N+nBig
+		mm := i >= a.N+nBig
+		mmShift := 0
+		if mm {
+			n = r.Range(0, 14)
+			if r.Chance(1, 8) {
+				n = r.Range(15, 40)
+			}
+			layout = []string{"tiny_and_huge", "one_huge", "one_tiny"}[r.Intn(3)]
+		} else if big {
 			n = r.Range(4097, 5000)
 			layout = []string{"grid", "clustered", "duplicates"}[(i-a.N)%3]
 		} else if exhaustive {
@@ -403,6 +592,8 @@ func main() {
 		}
 		if big {
 			classes["big:"+layout]++
+		} else if mm {
+			classes["mm:"+layout]++
 		} else {
 			classes[layout]++
 		}
@@ -425,7 +616,26 @@ func main() {
 		if big {
 			curScale = []int{0, -600, 300}[(i-a.N)%3]
 		}
+		if mm {
+			// tiny units 2^kT, huge units 2^kH
+			kT := []int{-1074, -1060, -1000, -600, -300, -100, -20, 0}[r.Intn(8)]
+			kH := []int{-900, -500, -200, 40, 100, 300, 600, 900, 990}[r.Intn(9)]
+			for kH < kT+40 {
+				kH += 200
+			}
+			if kH > 990 {
+				kH = 990
+			}
+			curScale, mmShift = kT, kH-kT
+		}
+		negZero, negZeroCalls = 0, 0
+		if i%7 == 5 || (mm && i%2 == 0) {
+			negZero = 1 + r.Intn(3)
+			negZeros++
+		}
 		switch {
+		case mm:
+			scales["mixed_magnitudes"]++
 		case curScale == 0:
 			scales["unscaled"]++
 		case curScale < -537:
@@ -435,7 +645,12 @@ func main() {
 		default:
 			scales["exact_-537..489"]++
 		}
-		items := genItems(r, layout, n)
+		var items []item
+		if mm {
+			items = genMixed(r, n, mmShift, layout)
+		} else {
+			items = genItems(r, layout, n)
+		}
 		bulk := make([]rtree.BulkItem, n)
 		var sb []string
 		for j, it := range items {
@@ -449,7 +664,7 @@ func main() {
 		tree := rtree.BulkLoad(bulk)
 		ext := "none"
 		if b, ok := tree.Extent(); ok {
-			ext = fnum(unscale(b.MinX)) + "," + fnum(unscale(b.MinY)) + "," + fnum(unscale(b.MaxX)) + "," + fnum(unscale(b.MaxY))
+			ext = fnumP(b.MinX) + "," + fnumP(b.MinY) + "," + fnumP(b.MaxX) + "," + fnumP(b.MaxY)
 		}
 		dump := "-"
 		if d, ok := interface{}(tree).(interface{ VerifDump() string }); ok {
@@ -466,15 +681,15 @@ func main() {
 			cb, own := script(k, act, &visits)
 			err, pan := safely(func() error {
 				if kind == "R" {
-					return tree.RangeSearch(q.rt(), cb)
+					return tree.RangeSearch(q.rtq(), cb)
 				}
-				return tree.PrioritySearch(q.rt(), cb)
+				return tree.PrioritySearch(q.rtq(), cb)
 			})
 			acts[kind+act[:1]]++
 			emit(kind, q, k, act, retClassP(err, own, pan), visits)
 		}
 		nearest := func(tag string, q ibox) {
-			id, found, ret := safeNearest(tree, q.rt())
+			id, found, ret := safeNearest(tree, q.rtq())
 			if found {
 				emit("N"+tag, q, 0, "s", ret, []int{id})
 			} else {
@@ -498,16 +713,19 @@ func main() {
 		if curScale != 0 {
 			caseClass += "@" + strconv.Itoa(curScale)
 		}
+		if mm {
+			caseClass = "mm:" + caseClass
+		}
 		if big {
 			caseClass = "big:" + caseClass
 			bb := bound(items)
 			some := items[r.Intn(n)].b
 			for qn, q := range []ibox{
-				{bb.minx - 1, bb.miny - 1, bb.maxx + 1, bb.maxy + 1},     // enclosing
-				{bb.minx, bb.miny, bb.maxx, bb.maxy},                     // the exact extent
-				{some.maxx, some.maxy, some.maxx, some.maxy},             // a point (corner of an item)
-				{bb.maxx + 2, bb.miny, bb.maxx + 9, bb.maxy},             // disjoint
-				{bb.minx - 1, bb.miny - 1, (bb.minx + bb.maxx) / 2, bb.maxy + 1}, // about half
+				bx(bb.minx-1, bb.miny-1, bb.maxx+1, bb.maxy+1),           // enclosing
+				bx(bb.minx, bb.miny, bb.maxx, bb.maxy),                   // the exact extent
+				bx(some.maxx, some.maxy, some.maxx, some.maxy),           // a point (corner of an item)
+				bx(bb.maxx+2, bb.miny, bb.maxx+9, bb.maxy),               // disjoint
+				bx(bb.minx-1, bb.miny-1, (bb.minx+bb.maxx)/2, bb.maxy+1), // about half
 			} {
 				qcls[[]string{"big_enclosing", "big_extent", "big_point", "big_disjoint", "big_half"}[qn]]++
 				run("R", q, n+1, "s")
@@ -521,10 +739,15 @@ func main() {
 				}
 			}
 		}
-		for qi, q := range genQueries(r, items, nq, qcls) {
-			if big {
-				break
-			}
+		var queries []ibox
+		switch {
+		case big:
+		case mm:
+			queries = genMixedQueries(r, items, mmShift, qcls)
+		default:
+			queries = genQueries(r, items, nq, qcls)
+		}
+		for qi, q := range queries {
 			hits := 0
 			for _, it := range items {
 				if overlapI(it.b, q) {
@@ -575,19 +798,19 @@ func main() {
 			}
 		}
 		// ---- histories: searches started from inside a callback of another search on the same tree
-		if n >= 2 && !big {
+		if n >= 2 && !big && !mm {
 			// populations above 1000: the extracted model is quadratic there, so the histories are
 			// kept short (early interruptions, no complete inner searches, no goroutines)
 			light := n > 1000
 			bb := bound(items)
 			corners := []ibox{
-				{bb.minx - 1, bb.miny - 1, bb.minx - 1, bb.miny - 1},
-				{bb.maxx + 1, bb.maxy + 1, bb.maxx + 1, bb.maxy + 1},
-				{bb.minx - 2, bb.maxy + 2, bb.minx - 2, bb.maxy + 2},
-				{bb.maxx + 2, bb.miny - 2, bb.maxx + 2, bb.miny - 2},
+				bx(bb.minx-1, bb.miny-1, bb.minx-1, bb.miny-1),
+				bx(bb.maxx+1, bb.maxy+1, bb.maxx+1, bb.maxy+1),
+				bx(bb.minx-2, bb.maxy+2, bb.minx-2, bb.maxy+2),
+				bx(bb.maxx+2, bb.miny-2, bb.maxx+2, bb.miny-2),
 			}
 			mirror := func(q ibox) ibox { // the query reflected through the centre of the population
-				return ibox{bb.minx + bb.maxx - q.maxx, bb.miny + bb.maxy - q.maxy, bb.minx + bb.maxx - q.minx, bb.miny + bb.maxy - q.miny}
+				return bx(bb.minx+bb.maxx-q.maxx, bb.miny+bb.maxy-q.maxy, bb.minx+bb.maxx-q.minx, bb.miny+bb.maxy-q.miny)
 			}
 			runInner := func(kind string, q ibox, k int, act string) {
 				var visits []int
@@ -596,11 +819,11 @@ func main() {
 					nearest("i", q)
 				case "P":
 					cb, own := script(k, act, &visits)
-					err, pan := safely(func() error { return tree.PrioritySearch(q.rt(), cb) })
+					err, pan := safely(func() error { return tree.PrioritySearch(q.rtq(), cb) })
 					emit("Pi", q, k, act, retClassP(err, own, pan), visits)
 				case "R":
 					cb, own := script(k, act, &visits)
-					err, pan := safely(func() error { return tree.RangeSearch(q.rt(), cb) })
+					err, pan := safely(func() error { return tree.RangeSearch(q.rtq(), cb) })
 					emit("Ri", q, k, act, retClassP(err, own, pan), visits)
 				}
 				acts["inner"+kind]++
@@ -638,9 +861,9 @@ func main() {
 				}
 				err, pan := safely(func() error {
 					if kind == "R" {
-						return tree.RangeSearch(q.rt(), cb)
+						return tree.RangeSearch(q.rtq(), cb)
 					}
-					return tree.PrioritySearch(q.rt(), cb)
+					return tree.PrioritySearch(q.rtq(), cb)
 				})
 				acts["outer"+kind]++
 				emit(kind+"o", q, k, act, retClassP(err, own, pan), visits)
@@ -664,7 +887,7 @@ func main() {
 			if r.Bool() {
 				q, q2 = corners[2], corners[3]
 			}
-			enclosing := ibox{bb.minx - 1, bb.miny - 1, bb.maxx + 1, bb.maxy + 1}
+			enclosing := bx(bb.minx-1, bb.miny-1, bb.maxx+1, bb.maxy+1)
 			if light {
 				runOuter("P", q, q2, 4+r.Intn(16), pickAct(r.Intn(3)), positions(false))
 				runOuter("P", q2, q, 4+r.Intn(16), pickAct(r.Intn(3)), map[int]bool{0: true, 1: true, 2: true, 3: true})
@@ -681,9 +904,9 @@ func main() {
 				const G = 4
 				type res struct {
 					kind, act, ret string
-					q          ibox
-					k          int
-					v          []int
+					q              ibox
+					k              int
+					v              []int
 				}
 				results := make([][]res, G)
 				var wg sync.WaitGroup
@@ -703,16 +926,16 @@ func main() {
 							cb := func(id int) error { runtime.Gosched(); return cb0(id) }
 							err, pan := safely(func() error {
 								if kind == "R" {
-									return tree.RangeSearch(q.rt(), cb)
+									return tree.RangeSearch(q.rtq(), cb)
 								}
-								return tree.PrioritySearch(q.rt(), cb)
+								return tree.PrioritySearch(q.rtq(), cb)
 							})
 							results[g] = append(results[g], res{kind, act, retClassP(err, own, pan), q, k, visits})
 						}
 						one("P", corners[g], n+1, "s")
 						one("R", enclosing, n+1, "s")
 						one("P", corners[(g+1)%G], ks[g], []string{"s", "w", "f7"}[g%3])
-						id, found, ret := safeNearest(tree, corners[(g+2)%G].rt())
+						id, found, ret := safeNearest(tree, corners[(g+2)%G].rtq())
 						if found {
 							results[g] = append(results[g], res{"N", "s", ret, corners[(g+2)%G], 0, []int{id}})
 						} else {
@@ -733,7 +956,8 @@ func main() {
 		fmt.Fprintf(w, "%d\t%s\t%s\t%d\t%s\t%s\t%s\n", i, caseClass, itemStr, tree.Count(), ext, dump, strings.Join(out, "|"))
 	}
 	stats := map[string]interface{}{"layouts": classes, "queries": qcls, "scripts": acts, "sizes": sizeHist,
-		"searches": searches, "trees_dumped_through_hook": hook, "max_population": maxN, "scale_exponents": scales}
+		"searches": searches, "trees_dumped_through_hook": hook, "max_population": maxN, "scale_exponents": scales,
+		"populations_with_negative_zero": negZeros}
 	js, _ := json.Marshal(stats)
 	fmt.Fprintf(w, "#GEN\t%s\n", js)
 }
